@@ -37,9 +37,11 @@ reg("C06", "C06",
 reg("C07", "C07",
     "every pair of a boundary lattice (0,1,2,3,12450,2^64-1,2^64,2^64+1,2^127..,2^128-1,2^128,p-1,p-2,(p-1)/2,(p+1)/2) plus seeded uniform "
     "elements under add/sub/mul; neg/double/square/invert/sqrt/pow (limb-boundary and full-width exponents) on every value; decoding of "
-    "canonical strings, p, p+1, high-limb-set and random 24-byte strings; Fp::random limb triples; the published constants; secrets with an out-of-range element at every position handed to the dealer. "
+    "canonical strings, p, p+1, high-limb-set and random 24-byte strings; Fp::random limb triples; the published constants; secrets with an out-of-range element at every position handed to the dealer; "
+    "limb level: every pair of ~40 internal Montgomery forms (0,1,2,12450,2^64-1,2^64,2^128-1,2^128,p-1, limb and carry boundaries, the published constants, seeded uniform) under add/sub/mul, "
+    "neg/double/square/to_repr/is_odd/invert/sqrt/pow_vartime on each, from_repr, From<u64>, rounds of random - internal limbs of every result compared. "
     "Non-trivial = result is not none",
-    ["the limb/Montgomery arithmetic generated by ff_derive is compared with the model on these operands, not verified for all operands"], agree=True)
+    ["the limb model is tied to ff_derive's output by translation of the macro-expanded source (straight-line parts) and by the limb-exact run on these operands (loop-shaped helpers)"], agree=True)
 
 
 reg("C01", "C01",
